@@ -8,7 +8,8 @@ from monkeytype.typing import field_annotations
 from runtime import corpus, infer, spec_c
 from runtime.harness import Harness
 
-CALLABLES = (pytypes.FunctionType, pytypes.LambdaType, pytypes.MethodType, pytypes.BuiltinMethodType, pytypes.BuiltinFunctionType)
+CALLABLES = (pytypes.FunctionType, pytypes.LambdaType, pytypes.MethodType, pytypes.BuiltinMethodType, pytypes.BuiltinFunctionType,
+             pytypes.MethodDescriptorType, pytypes.WrapperDescriptorType, pytypes.MethodWrapperType, pytypes.ClassMethodDescriptorType)
 
 
 # keys of a dict that went through the TypedDict representation (k > 0) are plain field names: their str subclass is not kept
